@@ -1,12 +1,17 @@
 #!/bin/bash
-# usage: tools/run_all.sh <quick|thorough> [ids...]  -- runs checks sequentially, prints one line per check
+# usage: tools/run_all.sh <quick|thorough> [ids...]  -- runs checks sequentially, prints one line per check.
+# Thorough evidence files are copied to evidence-thorough/ (the committed evidence/ holds quick-tier runs, which
+# is what a fresh restore reproduces).
 cd /verif
 TIER="$1"; shift
 IDS="${*:-C01 C02 C03 C04 C05 C06 C07 C08 C09 C10 C11 C12 C13 C14 C15 C16 C17 C18 C19 C20}"
+mkdir -p work evidence-thorough
 for id in $IDS; do
   s=$(date +%s)
-  out=$(./check $id $TIER 2>&1 | grep -v "^proptest: Abort"); rc=$?
+  ./check $id $TIER > work/run_all.$$.out 2>&1; rc=$?
   e=$(date +%s)
-  echo "$id $TIER rc=$rc wall=$((e-s))s :: $(echo "$out" | grep -E "^C[0-9]+ (quick|thorough)|fuzz:" | tr '\n' ' ')"
-  echo "$out" | grep -E "^VIOLATION|^INCONCLUSIVE|^KNOWN" | head -5
+  echo "$id $TIER rc=$rc wall=$((e-s))s :: $(grep -E "^C[0-9]+ (quick|thorough)|fuzz:" work/run_all.$$.out | cut -c1-400 | tr '\n' ' ')"
+  grep -E "^VIOLATION|^INCONCLUSIVE|^KNOWN" work/run_all.$$.out | head -5
+  if [ "$TIER" = thorough ] && [ -f evidence/$id.json ]; then cp evidence/$id.json evidence-thorough/$id.json; fi
 done
+rm -f work/run_all.$$.out
